@@ -239,6 +239,13 @@ def r5_handshake(ctx):
     C14.r4_handshake(ctx)
 
 
+def r7_hash_separates(ctx):
+    """`a client whose protocol differs is never authorized` needs the two hashes to differ: every registration feeds the hasher on
+    every path with its own method and part (C14.R1 + C14.R2)."""
+    C14.r1_must_hash(ctx)
+    C14.r2_hasher_methods(ctx)
+
+
 from rules.first_sight import r_first_sight
 
 RULES = [
@@ -248,5 +255,6 @@ RULES = [
     ("C07.R4", "only events marked independent bypass the authorization gate", r4_independent, 5, ["default", "all-features", "server-only"]),
     ("C07.R5", "handshake: authorized exactly on equal hashes; mismatch notifies and disconnects (same rule as C14.R4)", r5_handshake, 10, ["default", "all-features"]),
     ("C07.R6", "first-sight completeness: a client that does not hold an entity yet (just authorized, just spawned, visibility gained) is sent every replicated component", r_first_sight, 14, ["default", "all-features", "server-only"]),
+    ("C07.R7", "registrations that differ hash differently: every registration feeds the hasher with a distinct method/part (same rules as C14.R1, C14.R2)", r7_hash_separates, 40, ["default", "all-features"]),
 ]
 THOROUGH_CONFIGS = ["default", "all-features", "server-only"]
